@@ -407,6 +407,26 @@ class Ceremony:
                 fail("C11", "R1", "inputs_misstated" + cause, f"summary says inputs total {d['total_input_sats']} sats; the spent outputs are worth {true_in}")
         if d["spend_sats"] + d["change_sats"] + d["tx_fee_sats"] != d["total_input_sats"]:
             fail("C11", "R1", "conservation", f"spend {d['spend_sats']} + change {d['change_sats']} + fee {d['tx_fee_sats']} != inputs {d['total_input_sats']}")
+        # R5: every input that was summarised carries a script that commits to the genuinely spent output
+        tr.oracle("R5")
+        for k, i in enumerate(tx["ins"]):
+            f = s.funding.get(i["txid"])
+            if f is None or i["vout"] >= len(f["outs"]) or k >= len(pm["inputs"]):
+                continue
+            true_spk = f["outs"][i["vout"]]["spk"]
+            red = psbtmap.get(pm["inputs"][k], 0x04)
+            wsc = psbtmap.get(pm["inputs"][k], 0x05)
+            red = red[0][1] if red else None
+            wsc = wsc[0][1] if wsc else None
+            ok = True
+            if len(true_spk) == 23 and true_spk[:2] == b"\xa9\x14":
+                ok = red is not None and tm.spk_p2sh(tm.hash160(red)) == true_spk
+                if ok and wsc is not None:
+                    ok = red == tm.spk_p2wsh(tm.sha256(wsc))
+            elif len(true_spk) == 34 and true_spk[:2] == b"\x00\x20":
+                ok = wsc is not None and tm.spk_p2wsh(tm.sha256(wsc)) == true_spk
+            if not ok:
+                fail("C11", "R5", "input_script_mismatch_" + (self.plan.get("tamper") or {}).get("kind", "corruption"), f"input {k} was summarised although its attached redeem/witness script does not commit to the output it spends")
         # R2: everything labelled change must be what the wallet can spend
         tr.oracle("R2")
         quorum_m = s.m
@@ -575,7 +595,10 @@ class Ceremony:
                 tr.ev(dst.name, "combine", "raised:" + type(e).__name__)
                 tr.oracle("Q6")
                 same_tx = pm is not None and tm.txid(pm["tx"]) == tm.txid(self.setup.tx)
-                own_same = True
+                try:
+                    own_same = pm is not None and tm.txid(psbtmap.parse(dst.durable)["tx"]) == tm.txid(pm["tx"])
+                except Exception:
+                    own_same = False
                 if same_tx and own_same and clean:
                     fail("C10", "Q6", "combine_same_tx_raised", f"{dst.name} could not combine two PSBTs of the same transaction: {type(e).__name__}: {e}")
                 return
@@ -769,6 +792,70 @@ class Ceremony:
                 acc = secp.parse_path(c.account_path)
                 om.append((b"\x02" + pk, c.fingerprint + b"".join(i.to_bytes(4, "little") for i in acc + [1, ix])))
             pm["outputs"][ch_pos] = om
+        elif kind == "forge_change":
+            # generic forged change: every key slot draws (which cosigner's key, at which path) and (which fingerprint and path the
+            # record claims) independently; the R2 oracle decides whether the result is genuinely change
+            if ch_pos is None or s.n < 2:
+                return None
+            r = plan_rng(a, "forge")
+            inp0 = s.inputs[0]
+            places = [(0, inp0["index"]), (1, s.change["index"]), (1, s.change["index"] + 1), (0, inp0["index"] + 1)]
+            pks, recs = [], []
+            for j in range(s.n):
+                src = s.cos[r.choice([0, 0, j, r.randrange(s.n)])]
+                kb, ki = r.choice(places)
+                pk = secp.sec(src.child_pub(kb, ki))
+                claim = s.cos[r.choice([j, j, r.randrange(s.n)])]
+                cb_, ci_ = r.choice([(kb, ki), (kb, ki), r.choice(places)])
+                acc = secp.parse_path(claim.account_path)
+                pks.append(pk)
+                recs.append((pk, claim.fingerprint + b"".join(i.to_bytes(4, "little") for i in acc + [cb_, ci_])))
+            if len(set(pks)) != len(pks):
+                return None
+            spk2, red2, ws2 = rw.spend_script(s.kind, s.m, pks)
+            tx["outs"][ch_pos]["spk"] = spk2
+            put_tx()
+            om = [kv for kv in pm["outputs"][ch_pos] if kv[0][:1] not in (b"\x00", b"\x01", b"\x02")]
+            if red2 is not None:
+                om.append((b"\x00", red2))
+            if ws2 is not None:
+                om.append((b"\x01", ws2))
+            for pk, v in recs:
+                om.append((b"\x02" + pk, v))
+            pm["outputs"][ch_pos] = om
+        elif kind == "nonwitness_utxo_foreign_script":
+            # segwit input documented by the full previous transaction only, with a foreign witness/redeem script attached
+            k_in = a % len(pm["inputs"])
+            im = pm["inputs"][k_in]
+            ftx = s.funding.get(tx["ins"][k_in]["txid"])
+            if ftx is None:
+                return None
+            _, red2, ws2 = rw.spend_script(s.kind, s.m, evil)
+            im2 = [kv for kv in im if kv[0][:1] != b"\x01" and kv[0][:1] != b"\x00"]
+            im2.insert(0, (b"\x00", tm.ser_tx(ftx)))
+            pm["inputs"][k_in] = im2
+            done = False
+            if ws2 is not None:
+                done = psbtmap.set_value(im2, b"\x05", ws2)
+            elif red2 is not None:
+                done = psbtmap.set_value(im2, b"\x04", red2)
+            if not done:
+                return None
+        elif kind == "both_utxo_records_disagree":
+            # the input carries the genuine previous transaction AND a witness UTXO with another amount
+            k_in = a % len(pm["inputs"])
+            im = pm["inputs"][k_in]
+            ftx = s.funding.get(tx["ins"][k_in]["txid"])
+            if ftx is None:
+                return None
+            vout = tx["ins"][k_in]["vout"]
+            o = ftx["outs"][vout]
+            lie = (o["amount"] + 77777 + a).to_bytes(8, "little") + tm.compact_size(len(o["spk"])) + o["spk"]
+            im2 = [kv for kv in im if kv[0][:1] not in (b"\x00", b"\x01")]
+            recs = [(b"\x00", tm.ser_tx(ftx)), (b"\x01", lie)]
+            if a % 2:
+                recs.reverse()
+            pm["inputs"][k_in] = recs + im2
         elif kind == "utxo_amount":
             im = pm["inputs"][a % len(pm["inputs"])]
             wu = psbtmap.get(im, 0x01)
@@ -956,7 +1043,7 @@ def execute(plan, prop, trace):
 # ------------------------------------------------------------------------------------------------ generation
 
 TAMPER_KINDS = ["swap_change_spk", "flip_change_spk_byte", "foreign_script", "foreign_fingerprint", "wrong_path", "one_cosigner_keys", "one_cosigner_keys_spoofed_fps", "utxo_amount", "other_prev_tx", "changed_quorum", "second_change",
-                "redeem_for_other_input"]
+                "redeem_for_other_input", "forge_change", "forge_change", "forge_change", "nonwitness_utxo_foreign_script", "both_utxo_records_disagree"]
 
 
 def gen_spend(ch, tier, kinds, max_n):
@@ -970,13 +1057,15 @@ def gen_spend(ch, tier, kinds, max_n):
     inputs = [{"branch": 0, "index": ch.randrange(0, 50), "amount": ch.choice([50000, 100000, 10**7, 2 * 10**8]) + ch.randrange(1000), "fund_seed": ch.randrange(1 << 30), "vout": ch.randrange(0, 3)} for _ in range(n_in)]
     total = sum(i["amount"] for i in inputs)
     fee = ch.choice([1000, 2500, 10000])
-    n_pay = ch.choice([1, 1, 2])
+    n_pay = ch.choice([1, 1, 2, 2, 3])
     has_change = ch.chance(0.6)
     rest = total - fee
     outs = []
     for k in range(n_pay):
         amt = rest // (n_pay + (1 if has_change else 0)) - ch.randrange(0, 100)
         outs.append({"amount": amt, "spk": ch.choice([tm.spk_p2wpkh(ch.bytes(20)), tm.spk_p2pkh(ch.bytes(20)), tm.spk_p2sh(ch.bytes(20)), tm.spk_p2wsh(ch.bytes(32))]).hex()})
+    if len(outs) >= 2 and ch.chance(0.35):
+        outs[1]["spk"] = outs[0]["spk"]  # the same payee twice (batch payment to one address)
     paid = sum(o["amount"] for o in outs)
     plan = {"wallet": {"kind": kind, "m": m, "cosigners": ch.sample(range(POOL), n)}, "inputs": inputs, "outputs": outs, "version": ch.choice([1, 2]), "locktime": ch.choice([0, 0, 800000]),
             "sequence": ch.choice([0xFFFFFFFF, 0xFFFFFFFE, 0xFFFFFFFD])}
@@ -1096,6 +1185,31 @@ def enumerate_plans(tier, prop, seed):
         return plan
 
     if prop == "C11":
+        # honest batch payments with repeated payee addresses
+        for kind in ("p2sh", "p2wsh"):
+            for dup in (2, 3):
+                plan = base(kind, 1, 2)
+                amt = plan["outputs"][0]["amount"]
+                plan["outputs"] = [{"amount": amt // dup - k, "spk": plan["outputs"][0]["spk"]} for k in range(dup)]
+                plan["change"]["amount"] += amt - sum(o["amount"] for o in plan["outputs"])
+                plan["creator"] = {"segwit_flag": False, "xpubs": False, "unknown": False, "helper": False}
+                plan["sign_method"] = "keys"
+                plan["topology"] = "review"
+                plan["steps"] = [{"op": "send", "src": "C", "dst": "S0"}]
+                plan["enum"] = "batch-same-payee"
+                yield plan
+        # forged change outputs (generic forger), many seeds
+        for kind in ("p2sh", "p2wsh"):
+            for a in range(12 if tier == "quick" else 150):
+                plan = base(kind, r.choice([1, 2]), 2 if a % 3 else 3)
+                plan["creator"] = {"segwit_flag": False, "xpubs": False, "unknown": False, "helper": False}
+                plan["sign_method"] = "keys"
+                plan["topology"] = "review"
+                st = {"op": "send", "src": "C", "dst": "S0", "tamper": {"kind": "forge_change", "a": a + 1000 * seed}}
+                plan["tamper"] = st["tamper"]
+                plan["steps"] = [st]
+                plan["enum"] = "forged-change"
+                yield plan
         # the catalogue against both wallet types
         for kind in ("p2sh", "p2wsh"):
             for tk in [None] + TAMPER_KINDS:
